@@ -631,30 +631,7 @@ class C15Monitor(Monitor):
         self.p_variant = p_variant
         self.gcc_cache = {}
         self.nwork = 0
-        self.local = {}  # this shard's own counts (quota for the generation cap)
         self.reset()
-
-    def count(self, key):
-        self.local[key] = self.local.get(key, 0) + 1
-        self.ctx.stat(key)
-
-    def on_end(self, sess):
-        """the soft cap limits *generation*; on a machine so loaded that a shard has not
-        reached its share of the evidence thresholds by then, generation goes on (bounded
-        by params.extend_s) instead of ending in an inconclusive run"""
-        ctx = self.ctx
-        ext = float(ctx.params.get("extend_s", 0))
-        if self.replay or not ext or not ctx.out_of_time():
-            return
-        import time
-
-        if time.time() > ctx.t0 + float(ctx.params.get("soft_s", 0)) + ext:
-            return
-        need = ctx.params.get("shard_quota") or {}
-        short = [k for k, n in need.items() if self.local.get(k, 0) < n]
-        if short:
-            ctx.stat("generation.extended_programs")
-            ctx.soft_deadline = time.time() + 1.0
 
     def reset(self):
         self.seen_fp = set()
@@ -699,7 +676,7 @@ class C15Monitor(Monitor):
         if kinds:
             ctx.stat("judge.inconsistent")
             for k in kinds:
-                self.count(f"judge.inconsistent.{k}")
+                ctx.stat(f"judge.inconsistent.{k}")
         else:
             ctx.stat("judge.consistent")
         new_kinds = [k for k in kinds if k not in self.prev_kinds]
@@ -754,7 +731,7 @@ class C15Monitor(Monitor):
                 ctx.inconclusive("gcc_error:" + type(e).__name__)
                 return
             self.gcc_cache[h] = (ok, err)
-            self.count("gcc.checks")
+            ctx.stat("gcc.checks")
         if ok:
             ctx.stat("gcc.accepted")
             self.sample(sess, proc, via, kinds, findings, "accepted", "accepted")
@@ -852,14 +829,13 @@ class C15Monitor(Monitor):
 # ----------------------------------------------------------------------------
 def plan(tier, seed):
     quick = tier == "quick"
-    nshards = 16
-    quota = {"gcc.checks": -(-MIN_GCC * 5 // (4 * nshards))}
-    for k in annot.KINDS:
-        quota[f"judge.inconsistent.{k}"] = -(-MIN_KIND * 3 // (2 * nshards))
+    # count-based budget (modules per shard); soft_s is only a generous cap for a loaded machine.
+    # A module costs ~1.3 s on an idle core (front end 0.3 s, up to 6 compiles, gcc -c 0.1-0.4 s each):
+    # quick ~50 s per shard, thorough ~9 min.
     return {
-        "nshards": nshards,
-        "params": {"soft_s": 95 if quick else 780, "extend_s": 110 if quick else 60, "shard_quota": quota, "script_len": 4},
-        "hard_timeout_s": 420 if quick else 1500,
+        "nshards": 16,
+        "params": {"soft_s": 300 if quick else 840, "nprograms": 36 if quick else 400, "script_len": 4},
+        "hard_timeout_s": 700 if quick else 2400,
     }
 
 
